@@ -19,7 +19,7 @@ def ulp(x):
 class P(Prop):
     id = "C17"
     design_ref = "DESIGN.md section 5, C17"
-    theorems_planned = [
+    theorems = [
         ("TracklibVerif.Props.C17", "TV.C17.abscurv_prefix", "abs_curv[i] = sum of the first i planimetric legs: s[0]=0, s[i+1]=s[i]+|P[i]P[i+1]| (any scalar type, any sqrt)"),
         ("TracklibVerif.Props.C17", "TV.C17.abscurv_geometric", "over an ordered field with a genuine sqrt: each increment is the non-negative d with d*d = dx^2+dy^2, the column is non-decreasing and ends at the planimetric length"),
         ("TracklibVerif.Props.C17", "TV.C17.speed_def", "speed[i] for n>=2: one-sided at both ends, neighbours (i-1,i+1) inside, NaN exactly when the elapsed time is zero"),
